@@ -547,7 +547,7 @@ func TestC20(t *testing.T) {
 	r := kit.Start(t, "C20", "exploration")
 	defer r.Finish()
 	r.Rule("histories on main-net id: 4-8 submissions each drawn from {fresh valid, same subject again (other proof bytes / voters), same message at another height, other body with the same cross-chain id, failed first attempt (malformed bytes | unregistered destination | blacklisted destination | too few votes + outsiders + forged relayer) followed by a valid one}; a submission is a voting round of all validators in random order with outsiders and repeat voters mixed in; sources: two VOTE-router chains and one ripple chain; N validators 4..10; distinct = (N, sequence of submission kinds, #accepted, height regime)")
-	nh := r.N(600, 9000)
+	nh := r.N(400, 9000)
 	rng := r.Rand("histories")
 	for i := 0; i < nh; i++ {
 		n := 4 + i%4
